@@ -42,6 +42,13 @@ CLAIMED = {
                      "(gen_vector / gen_number verified over the reals).",
                 note=TRUST + " Exceptions other than TimeoutError/RuntimeError are one abstract class; rounding in gen_number is real arithmetic.",
                 tech="deductive verification with exceptional postconditions (raises clauses) and ghost counters (pyvc/z3)"),
+    "C14": dict(cat="proof", ref="5/C14",
+                text="WorstCaseEvaluator.add / GradientEvaluator.add (neighbour designs +-tol resp. +delta along every axis), the "
+                     "post-processing of both run() methods (sensitivity = sum of |f(x)-f(neighbour)| appended exactly once before the "
+                     "marker; forward-difference gradient) and the reset of the work lists (idle at exit, which is what makes results "
+                     "stable across batches) are verified for any dimension and batch; the orchestration in evaluate() is bounded only.",
+                note=TRUST + " run() is proved in two sequential region steps; evaluate()'s orchestration is a bounded run-time check.",
+                tech="deductive verification: object invariant (idle work lists) + loop invariants with a recursive sum spec (pyvc/z3); bounded run-time check for the orchestration"),
     "C18": dict(cat="proof", ref="5/C18",
                 text="Personal-best update, velocity clamp (speed_constriction and both update_velocity variants), the three "
                      "update_position variants and the three select_leader variants are verified for swarms of any size and dimension: "
